@@ -13,16 +13,24 @@
      (`"\xZ" 1` reports eofString with input left) and is not part of C19;
    * truncation clause: `C19_prefix_det`, `C19_prefix_det_ok` (an outcome reached with input left
      does not depend on what follows), `C19_truncation_reads_all` (if the full text parses and a
-     prefix does not, the prefix was read to its end).  PARTIAL: the remaining step "... and the
-     error raised at the end is of EOF category" is carried by the prefix oracle on every proper
-     prefix of a corpus of single-datum texts from all sources; the Lean development found the one
-     site where it failed on the pinned tree (`#u8(#`, witness `C19_truncation_counterexample` at the
-     time, repaired in /repo, see DESIGN.md section 9).
+     prefix does not, the prefix was read to its end), and, in LexprModel/Proofs/Truncation.lean and
+     TruncHistory.lean (Trunc*.lean; imported here), the clause itself for every option set, both
+     build features and every source: `C19_truncation`, `C19_truncation_datum` — the error on the
+     proper prefix is of EOF category unless it is `NumberOutOfRange`; `C19_truncation_iff` — that
+     exception is exactly the failure of the clause; `C19_truncation_history` — the same for any
+     history of calls on one parser (the iterator API).  The clause as stated is FALSE
+     (`C19_truncation_clause_false`): an integer part of more than 308 digits is out of range at
+     the end of the input although `e-1` may follow (`C19_truncation_counterexample_long_integer`,
+     `_fast`; known finding, both build features).  The Lean development also found `#u8(#`
+     (`C19_truncation_u8_hash`) and the surrogate-valued Emacs escapes `"\xD800`, `?\154000`,
+     `"\N{U+D800` (examples in TruncExamples.lean); both are repaired in /repo and the model
+     follows the repaired code (DESIGN.md section 9).
   Proved here: the classification clause, for the whole error table as
   regenerated from the code on this run, and the model's category function.
 -/
 import LexprModel.TablesCheck
 import LexprModel.Proofs.Locations
+import LexprModel.Proofs.TruncExamples
 namespace Lexpr
 namespace Parse
 
